@@ -218,8 +218,8 @@ func c12Run(r *vcore.Run, sub string, c c12Case) {
 		var denyErrs []error
 		if c.Wrapper == "Select" {
 			for _, nd := range inv.needed() {
-				if nd[0] == "*" {
-					continue
+				if nd[0] == "*" && inv.M == "Repositories" {
+					continue // the catalogue as a whole; a repository literally called "*" is an ordinary (rejected) name
 				}
 				if !allowedSel[nd[0]] {
 					if nd[1] == "write" {
@@ -437,6 +437,23 @@ func c12Check(r *vcore.Run) vcore.Coverage {
 				c12Run(r, "seq", c12Case{Wrapper: "Select", Seq: []c12Inv{i1, i2}, Allowed: allowed})
 				evals++
 				nontrivial++
+			}
+		}
+	}
+	// (2b) Select and the literal name "*" (which AccessChecker uses for "the catalogue as a whole"): a
+	// caller that names a repository "*" names a repository the policy rejects
+	for _, m := range allMethods {
+		if m == "Repositories" {
+			continue
+		}
+		star := []c12Inv{{M: m, Repo: "*"}}
+		if m == "MountBlob" {
+			star = []c12Inv{{m, "*", "a"}, {m, "a", "*"}}
+		}
+		for _, inv := range star {
+			for _, allowed := range [][]string{nil, {"a"}, {"a", "b", "c"}} {
+				c12Run(r, "seq", c12Case{Wrapper: "Select", Seq: []c12Inv{inv}, Allowed: allowed})
+				evals++
 			}
 		}
 	}
